@@ -25,6 +25,10 @@ def main(argv=None) -> int:
         return 2
     try:
         mod = importlib.import_module("cctv.props." + a.prop.lower())
+        missing = [t for t in getattr(mod, "THEOREMS", []) if f"CCT.{a.prop}.{t}" not in proof["theorems"]]
+        if missing:
+            print(f"INFRASTRUCTURE ERROR (not a violation): theorems named by the check do not exist in CCT/Props/{a.prop}.lean: {missing}", file=sys.stderr)
+            return 2
         ck = Check(a.prop, a.tier, a.seed)
         if a.replay:
             ck.extra["replay_of"] = a.replay
